@@ -239,7 +239,7 @@ theorem volt_congr {R : Ix → Prop} {x y : Ix → K} (h : ∀ i, R i → y i = 
   | zero => rfl
   | succ k => exact h _ hn
 
-theorem mutualDrop_congr (s : K) (x y : Ix → K) (coup : List (Nat × K))
+theorem mutualDrop_congr (s : K) (x y : Ix → K) (coup : List (Nat × K × Option K))
     (h : ∀ p ∈ coup, y (br p.1) = x (br p.1)) : mutualDrop s y coup = mutualDrop s x coup := by
   induction coup with
   | nil => rfl
@@ -267,7 +267,7 @@ theorem laws_congr (kind : Kind) (s : K) {R : Ix → Prop} {x y : Ix → K} (h :
   cases c with
   | Ind n1 n2 m l i0 coup =>
     have hm : mutualDrop s y coup = mutualDrop s x coup :=
-      mutualDrop_congr s x y coup (fun p hp => hb p.1 (by simp [mentions]; exact Or.inr ⟨p.2, hp⟩))
+      mutualDrop_congr s x y coup (fun p hp => hb p.1 (by simp [mentions]; exact Or.inr ⟨p.2.1, p.2.2, hp⟩))
     simp [mentions] at hv hb
     cases kind <;> simp [laws, vd, hv, hb, hm]
   | _ => simp [mentions] at hv hb <;> simp [laws, vd, hv, hb]
@@ -381,7 +381,7 @@ theorem lawsOf_toCpt (kind : Kind) (s : K) (e : TT K) (a b m : Nat) (x : Ix → 
   cases e with
   | L l i0 =>
     cases kind <;> cases i0 <;>
-      simp [TT.toCpt, laws, TT.rel, TT.cur, mutualDrop, lsum, icv, sub_eq_zero]
+      simp [TT.toCpt, laws, TT.rel, TT.cur, mutualDrop, mutualIC, lsum, icv, sub_eq_zero]
   | V e => simp [TT.toCpt, laws, TT.rel, TT.cur, sub_eq_zero]
   | _ => simp [TT.toCpt, laws, TT.rel, TT.cur]
 
